@@ -12,3 +12,4 @@ import Stingray.Props.C06
 import Stingray.Props.C10
 import Stingray.Props.C07
 import Stingray.Props.C11
+import Stingray.Props.C12
